@@ -22,6 +22,11 @@ def cases(tier):
             for start in ("default", "integers", "floats"):
                 yield "%s/transforms=%s/start=%s" % (kind, tr, start), {"kind": kind, "tr": tr, "start": start, "outcome": "ok"}
         yield "%s/transforms=True/start=default/evaluation-aborts-with-too-few-realizations" % kind, {"kind": kind, "tr": True, "start": "default", "outcome": "too-few-abort"}
+        # the SAME step object run a second time: with the same configuration dictionary (which the user may have edited in
+        # between), without the transforms, nested plan and metadata of the first run, from another start vector - nothing of the
+        # first run is kept
+        yield "%s/second-run-of-the-same-step-object" % kind, {"kind": kind, "tr": True, "start": "floats", "outcome": "ok", "second_run": "without-transforms"}
+        yield "%s/second-run-of-the-same-step-object-with-the-same-dictionary-and-transforms-objects" % kind, {"kind": kind, "tr": True, "start": "floats", "outcome": "ok", "second_run": "same-objects"}
 
 
 def scenario(T, case, prefix):
@@ -41,6 +46,8 @@ def scenario(T, case, prefix):
     opt_results = (FakeFunctionResults("r0"), FakeFunctionResults("r1"))
     x0 = T.real("validated_initial_values", (3,))
     validated = types.SimpleNamespace(variables=types.SimpleNamespace(initial_values=x0, mask=None))
+    x0_second = T.real("validated_initial_values_of_the_second_run", (3,))
+    validated_second = types.SimpleNamespace(variables=types.SimpleNamespace(initial_values=x0_second, mask=None))
 
     class FakeEvaluator:
         def __init__(self, config, transforms, evaluator, plugin_manager):
@@ -67,9 +74,12 @@ def scenario(T, case, prefix):
             signal(opt_results)
             return OptimizerExitCode.OPTIMIZER_STEP_FINISHED
 
+    calls = [0]
+
     def model_validate(config, context=None, **kw):
         log["validate"].append((config, context, kw))
-        return validated
+        calls[0] += 1
+        return validated if calls[0] == 1 else validated_second
 
     mod = MOPT if kind == "optimizer" else MEVS
     stubs = {(mod, "EnOptConfig"): types.SimpleNamespace(model_validate=model_validate), (mod, "EnsembleEvaluator"): FakeEvaluator}
@@ -100,7 +110,47 @@ def scenario(T, case, prefix):
         transforms = types.SimpleNamespace(variables=object(), objectives=None, nonlinear_constraints=None) if case["tr"] else None
         given = {"variables": {"initial_values": [1, 2, 3]}}
         start = {"default": None, "integers": [0, 0, 1], "floats": np.array([0.5, 1.5, 2.5])}[case["start"]]
-        rc = step.run(config=given, transforms=transforms, variables=start)
+        extra = {}
+        if case.get("second_run"):
+            extra["metadata"] = {"tag": "first run"}
+            if kind == "optimizer":
+                inner = types.SimpleNamespace(set_parent=lambda p: None, run_function=lambda v: None, aborted=False)
+                extra["nested_optimization"] = inner
+        rc = step.run(config=given, transforms=transforms, variables=start, **extra)
+        if case.get("second_run"):
+            first = {k: list(v) for k, v in log.items()}
+            for v in log.values():
+                del v[:]
+            # FakeOptimizer.start reads log["optimizer"][0]: fine, the list was emptied and is filled again by the second run
+            start2 = np.array([9.5, 8.5, 7.5])
+            for r in opt_results:
+                r.metadata = {}  # (the evaluator hands out fresh results in the second run)
+            tr2 = transforms if case["second_run"] == "same-objects" else None
+            given["variables"]["initial_values"] = [4, 5, 6]  # the user edits the dictionary between the runs (same object)
+            rc2 = step.run(config=given, transforms=tr2, variables=start2)
+            pre = prefix + ".step.second_run."
+            T.prove(pre + "configuration_is_validated_again_with_the_transforms_of_this_run", len(log["validate"]) == 1 and log["validate"][0][0] is given and log["validate"][0][1] is tr2)
+            T.prove(pre + "evaluator_is_built_again_from_the_newly_validated_configuration_and_the_transforms_of_this_run",
+                    len(log["evaluator"]) == 1 and log["evaluator"][0][0] is validated_second and log["evaluator"][0][1] is tr2 and log["evaluator"][0][2] is user_evaluator)
+            if kind == "optimizer":
+                T.prove(pre + "optimizer_is_built_again_from_the_newly_validated_configuration", len(log["optimizer"]) == 1 and log["optimizer"][0].get("enopt_config") is validated_second)
+                T.prove(pre + "nested_plan_of_the_first_run_is_not_kept", first["optimizer"][0].get("nested_optimizer") is not None and log["optimizer"][0].get("nested_optimizer") is None)
+            used2 = log["start"] if kind == "optimizer" else [c[0] for c in log["calculate"]]
+            T.prove(pre + "start_vector_is_the_one_given_to_the_second_run", len(used2) == 1 and bool(np.all(np.asarray(used2[0]) == start2)))
+            ev2 = [e for e in log["events"] if e.event_type == EventType.FINISHED_EVALUATION]
+            if tr2 is None:
+                T.prove(pre + "results_are_delivered_untransformed_and_without_the_first_runs_metadata",
+                        len(ev2) == 1 and list(ev2[0].data.get("results", ())) == list(opt_results) and "transformed_results" not in ev2[0].data
+                        and all(r.metadata == {} for r in opt_results))
+            else:
+                T.prove(pre + "results_are_delivered_in_both_domains_and_without_the_first_runs_metadata",
+                        len(ev2) == 1 and list(ev2[0].data.get("transformed_results", ())) == list(opt_results)
+                        and list(ev2[0].data.get("results", ())) == [("user-domain", r.tag, tr2) for r in opt_results] and all(r.metadata == {} for r in opt_results))
+            T.prove(pre + "finishes_with_its_regular_code", rc2 == rc)
+            for k, v in first.items():
+                log[k][:] = v
+            for r in opt_results:
+                r.metadata = {"tag": "first run"}
     finally:
         if restore:
             for k, v in restore[1].items():
